@@ -174,6 +174,11 @@ class SqlFacts:
             for v in e.values:
                 if isinstance(v, ast.Constant):
                     parts.append(str(v.value))
+                elif isinstance(v, ast.FormattedValue) and isinstance(v.value, ast.Name) and v.format_spec is None:
+                    # a local holding (a base text of) a query fragment
+                    sub, sdyn = self._string_of(modname, fn, v.value, before_line)
+                    parts.append(sub)
+                    dyn = dyn or sdyn
                 else:
                     parts.append("{?}")
                     dyn = True
